@@ -246,11 +246,11 @@ theorem origOf_of_tracked {c : Codec} {o0 x : Obj} (h : Tracked c o0 x) : origOf
   unfold Tracked at h
   simp [origOf, h]
 
-theorem storeIfAbsent_tracked {c : Codec} (hc : c.Lawful) {o0 : Obj} (h : noOrig o0 = true) :
+theorem storeIfAbsent_tracked {c : Codec} {o0 : Obj} (hc : c.LawfulOn (dataOf o0)) (h : noOrig o0 = true) :
     Tracked c o0 (storeIfAbsent c o0) := by
   have hl : lookup origKey (o0.annotations.getD []) = none := by
     simpa [noOrig, Option.isNone_iff_eq_none] using h
-  have hne : ¬ ("" = c.enc (dataOf o0)) := fun e => hc.enc_ne _ e.symm
+  have hne : ¬ ("" = c.enc (dataOf o0)) := fun e => hc.2 e.symm
   simp [storeIfAbsent, hl, storeObject, origOf, hne, Tracked, lookup_setKey_self]
 
 theorem storeIfAbsent_of_bound {c : Codec} {x : Obj} {v : String}
@@ -283,13 +283,13 @@ theorem compareAndUpdate_bound (d : Data) (x : Obj) {v : String}
 theorem compareAndUpdate_tracked {c : Codec} {o0 x : Obj} (d : Data) (h : Tracked c o0 x) :
     Tracked c o0 (compareAndUpdate d x).1 := compareAndUpdate_bound d x h
 
-theorem plan_of_tracked {c : Codec} (hc : c.Lawful) {o0 x : Obj} (s : Strategy) (f : Option Script)
+theorem plan_of_tracked {c : Codec} {o0 x : Obj} (hc : c.LawfulOn (dataOf o0)) (s : Strategy) (f : Option Script)
     (h : Tracked c o0 x) :
     plan c s f x = match f with
       | none => none
       | some f => f (dataOf o0) s := by
   have ho := origOf_of_tracked h
-  cases f <;> simp [plan, ho, hc.enc_ne, hc.dec_enc]
+  cases f <;> simp [plan, ho, hc.1, hc.2]
 
 /-- whatever `compareAndUpdateObject` does, afterwards the object carries the script result `d`. -/
 theorem compareAndUpdate_eqv (d : Data) (x : Obj) :
@@ -312,7 +312,7 @@ theorem compareAndUpdate_idem (d : Data) (x : Obj) :
     rw [this]
     simp [compareAndUpdate, origOf, lookup_setKey_self, mapsDeepEq_refl]
 
-theorem restore_of_tracked {c : Codec} (hc : c.Lawful) {o0 x : Obj} (hno : noOrig o0 = true)
+theorem restore_of_tracked {c : Codec} {o0 x : Obj} (hc : c.LawfulOn (dataOf o0)) (hno : noOrig o0 = true)
     (h : Tracked c o0 x) : restoreObject c x = (normalise o0, true) := by
   have hl : lookup origKey (o0.annotations.getD []) = none := by
     simpa [noOrig, Option.isNone_iff_eq_none] using hno
@@ -320,7 +320,10 @@ theorem restore_of_tracked {c : Codec} (hc : c.Lawful) {o0 x : Obj} (hno : noOri
   | none => simp [Tracked, ha, lookup] at h
   | some anns =>
     simp only [Tracked, ha, Option.getD_some] at h
-    simp [restoreObject, ha, h, hc.enc_ne, hc.dec_enc, dataOf, eraseKey_of_lookup_none hl,
+    have hd := hc.1
+    have hn := hc.2
+    simp only [dataOf, eraseKey_of_lookup_none hl] at hd hn
+    simp [restoreObject, ha, h, hn, hd, dataOf, eraseKey_of_lookup_none hl,
       optOfList_getD, normalise]
 
 theorem restore_of_noOrig (c : Codec) {o : Obj} (hno : noOrig o = true) : restoreObject c o = (o, false) := by
@@ -353,24 +356,24 @@ theorem ensureSeq_present (c : Codec) (steps : List Strategy) (l : List PRef) :
 
 /-- invariant before the first successful store. -/
 def Rel0 (c : Codec) (p0 p : PRef) : Prop :=
-  noOrig p0.2 = true ∧ p.1 = p0.1 ∧ (p.2 = p0.2 ∨ Tracked c p0.2 p.2)
+  (noOrig p0.2 = true ∧ c.LawfulOn (dataOf p0.2)) ∧ p.1 = p0.1 ∧ (p.2 = p0.2 ∨ Tracked c p0.2 p.2)
 
 /-- invariant from the first EnsureRoutes on. -/
 def RelT (c : Codec) (p0 p : PRef) : Prop :=
-  noOrig p0.2 = true ∧ p.1 = p0.1 ∧ Tracked c p0.2 p.2
+  (noOrig p0.2 = true ∧ c.LawfulOn (dataOf p0.2)) ∧ p.1 = p0.1 ∧ Tracked c p0.2 p.2
 
 theorem RelT.rel0 {c : Codec} {p0 p : PRef} (h : RelT c p0 p) : Rel0 c p0 p := ⟨h.1, h.2.1, .inr h.2.2⟩
 
-theorem store_tracked_of_rel0 {c : Codec} (hc : c.Lawful) {p0 p : PRef} (h : Rel0 c p0 p) :
+theorem store_tracked_of_rel0 {c : Codec} {p0 p : PRef} (h : Rel0 c p0 p) :
     Tracked c p0.2 (storeIfAbsent c p.2) := by
-  obtain ⟨hno, _, h3⟩ := h
+  obtain ⟨⟨hno, hc⟩, _, h3⟩ := h
   rcases h3 with h3 | h3
   · rw [h3]; exact storeIfAbsent_tracked hc hno
   · rw [storeIfAbsent_of_bound h3]; exact h3
 
-theorem stepOne_rel {c : Codec} (hc : c.Lawful) (s : Strategy) (ok : Bool) {p0 p : PRef}
+theorem stepOne_rel {c : Codec} (s : Strategy) (ok : Bool) {p0 p : PRef}
     (h : Rel0 c p0 p) : RelT c p0 (stepOne c s ok p).1 := by
-  have ht := store_tracked_of_rel0 hc h
+  have ht := store_tracked_of_rel0 h
   refine ⟨h.1, ?_, ?_⟩
   · unfold stepOne; simp only []; split
     · split <;> exact h.2.1
@@ -381,23 +384,24 @@ theorem stepOne_rel {c : Codec} (hc : c.Lawful) (s : Strategy) (ok : Bool) {p0 p
       · exact ht
     · exact ht
 
-theorem ensureSeqP_rel {c : Codec} (hc : c.Lawful) (steps : List Strategy) {l0 l : List PRef}
+theorem ensureSeqP_rel {c : Codec} (steps : List Strategy) {l0 l : List PRef}
     (h : All2 (Rel0 c) l0 l) :
     All2 (Rel0 c) l0 (ensureSeqP c steps l) ∧ (steps ≠ [] → All2 (RelT c) l0 (ensureSeqP c steps l)) := by
   induction steps generalizing l with
   | nil => exact ⟨h, fun hne => absurd rfl hne⟩
   | cons s ss ih =>
     have h1 : All2 (RelT c) l0 (ensureP c s l) :=
-      h.map_right fun _ _ hab => stepOne_rel hc s _ hab
+      h.map_right fun _ _ hab => stepOne_rel s _ hab
     have h2 := ih (h1.imp fun _ _ => RelT.rel0)
     refine ⟨h2.1, fun _ => ?_⟩
     cases ss with
     | nil => exact h1
     | cons s' ss' => exact h2.2 (by simp)
 
-theorem rel0_init (c : Codec) (l0 : List PRef) (hno : ∀ p, p ∈ l0 → noOrig p.2 = true) :
+theorem rel0_init (c : Codec) (l0 : List PRef) (hno : ∀ p, p ∈ l0 → noOrig p.2 = true)
+    (hc : ∀ p, p ∈ l0 → c.LawfulOn (dataOf p.2)) :
     All2 (Rel0 c) l0 l0 :=
-  All2.refl_of l0 fun p hp => ⟨hno p hp, rfl, .inl rfl⟩
+  All2.refl_of l0 fun p hp => ⟨⟨hno p hp, hc p hp⟩, rfl, .inl rfl⟩
 
 /-! ## Finalise on present lists -/
 
@@ -782,6 +786,22 @@ theorem vsScript_weight_ok (stable canary : String) (d d' : Data) (s : Strategy)
             simp only [vsWeightOK, protos, List.all_cons, List.all_nil, Bool.and_true,
               vsProtoOK, hg, getField_encJ_nonobj _ S3 hS, Option.map_none, decide_true]
             try (cases S3 <;> first | rfl | exact absurd rfl (hS _))
+
+theorem mapM_option_length {α β} (f : α → Option β) (l : List α) (r : List β)
+    (h : l.mapM f = some r) : r.length = l.length := by
+  induction l generalizing r with
+  | nil => simp [List.mapM_nil] at h; subst h; rfl
+  | cons x xs ih =>
+    simp only [List.mapM_cons] at h
+    cases hx : f x with
+    | none => simp [hx] at h
+    | some y =>
+      cases hxs : xs.mapM f with
+      | none => simp [hx, hxs] at h
+      | some ys =>
+        simp [hx, hxs] at h
+        subst h
+        simp [ih ys hxs]
 
 /-! ## DestinationRule script -/
 
